@@ -269,7 +269,7 @@ func famCmp(g *gen, e *emitter, n int) {
 		}
 	}
 	// starts with / like_regex
-	strs := []any{"", "a", "ab", "abc", "b", "A", "é", "a\nb", int64(1), nil, []any{"ab", "b"}, []any{"x", "ab"}}
+	strs := []any{"", "a", "ab", "abc", "b", "A", "é", "a\nb", int64(1), nil, []any{"ab", "b"}, []any{"x", "ab"}, "ΟΔΥΣΣΕΥΣ", "Meſſer", "İstanbul", "\u212a", "100%", "%d"}
 	for _, mode := range []string{"", "strict "} {
 		for _, a := range strs {
 			for _, b := range strs {
@@ -278,7 +278,8 @@ func famCmp(g *gen, e *emitter, n int) {
 			for _, lit := range []string{"", "a", "ab"} {
 				e.emit(caseSpec{family: "cmp", text: mode + `$x starts with "` + lit + `"`, vars: map[string]any{"x": a}})
 			}
-			for _, re := range []string{`"^a"`, `"b$"`, `"A" flag "i"`, `"a.b" flag "s"`, `"^b" flag "m"`, `"a.b"`, `"." flag "q"`, `"A" flag "iq"`, `"^b"`} {
+			for _, re := range []string{`"ς" flag "iq"`, `"ss" flag "iq"`, `"i" flag "iq"`, `"k" flag "i"`, `"σ" flag "i"`, `"S" flag "iq"`, `"100%" flag "q"`, `"%d"`,
+				`"^a"`, `"b$"`, `"A" flag "i"`, `"a.b" flag "s"`, `"^b" flag "m"`, `"a.b"`, `"." flag "q"`, `"A" flag "iq"`, `"^b"`} {
 				e.emit(caseSpec{family: "cmp", text: mode + "$x like_regex " + re, vars: map[string]any{"x": a}})
 			}
 		}
@@ -347,9 +348,11 @@ func famMath(g *gen, e *emitter, n int) {
 		}
 	}
 	// operand sequences
-	for _, doc := range []string{"[1,2]", "[[1,2]]", "[1]", "[]", `["a"]`, "3", `{"a":[1,2]}`, "[null]", "[[1]]"} {
+	for _, doc := range []string{"[1,2]", "[[1,2]]", "[1]", "[]", `["a"]`, "3", `{"a":[1,2]}`, "[null]", "[[1]]", "[1,10,-3]", `{"a":[1,10,-3]}`, `[1,"x",5]`} {
 		for _, mode := range []string{"", "strict "} {
-			for _, t := range []string{"$ + 1", "1 + $", "$[*] + 1", "-$", "-$[*]", "+$", "$ * $", "$.a + 1", "-$.a", "$[0] / 0", "$[0] % 0", "$[0] / 0.0", "-$[*].a", "(-$)[0]", "-$ == -1"} {
+			for _, t := range []string{"$ + 1", "1 + $", "$[*] + 1", "-$", "-$[*]", "+$", "$ * $", "$.a + 1", "-$.a", "$[0] / 0", "$[0] % 0", "$[0] / 0.0", "-$[*].a", "(-$)[0]", "-$ == -1",
+				// a unary operator applies to EVERY item, also when only existence is asked for
+				"(-$[*]) ? (@ < -1)", "(-$[*]) ? (@ > -2)", "(+$[*]) ? (@ > 1)", "exists((-$[*]) ? (@ < -1))", "(-$.a[*]) ? (@ < -1)", "$ ? (exists((-@[*]) ? (@ < -1)))", "(-$[*]).abs() ? (@ > 1)"} {
 				e.emit(caseSpec{family: "math", text: mode + t, doc: mustDoc(doc, false)})
 			}
 		}
@@ -395,6 +398,16 @@ func famMeth(g *gen, e *emitter, n int) {
 		for _, m := range []string{"double()", "number()", "integer()", "bigint()", "boolean()"} {
 			e.emit(caseSpec{family: "meth", text: "$x.string()." + m, vars: map[string]any{"x": v}})
 			e.emit(caseSpec{family: "meth", text: "$x." + m + " == $x.string()." + m, vars: map[string]any{"x": v}})
+		}
+	}
+	// a method applied to the result of arithmetic (which may overflow to a non-finite double, or wrap)
+	for _, t := range []string{"1e308", "1e300", "9223372036854775807", "2147483647", "0.5", "-1e308", "3"} {
+		for _, num := range []bool{false, true} {
+			for _, ex := range []string{"($x * 10)", "($x * $x)", "(-$x)", "($x / 3)", "($x * 10 - $x * 10)", "($x + 1)"} {
+				for _, m := range []string{"double()", "number()", "integer()", "bigint()", "string()", "abs()", "floor()", "decimal(5,2)", "type()"} {
+					e.emit(caseSpec{family: "meth", text: ex + "." + m, vars: map[string]any{"x": mustDoc(t, num)}})
+				}
+			}
 		}
 	}
 	// keyvalue
@@ -1401,8 +1414,14 @@ func famWalk(g *gen, e *emitter, n int) {
 		}
 		if g.chance(0.15) {
 			text = g.pick("-", "+") + "(" + text + ")"
+			if g.chance(0.5) {
+				text = "(" + text + ")" + g.pick(" ? (@ < 0)", " ? (@ > 1)", ".abs()", ".double()", "[0]", ".type()", " ? (@ < -5)", ".string()")
+			}
 		} else if g.chance(0.15) {
-			text = "(" + text + ") " + g.pick("+", "*", "-", "/", "%") + " " + g.pick("1", "2", "0", "$n", "0.5", "$tbl[0]")
+			text = "(" + text + ") " + g.pick("+", "*", "-", "/", "%") + " " + g.pick("1", "2", "0", "$n", "0.5", "$tbl[0]", "10", "1e308", "9223372036854775807")
+			if g.chance(0.5) {
+				text = "(" + text + ")" + g.pick(".double()", ".number()", ".integer()", ".abs()", ".string()", ".type()", ".floor()", " ? (@ > 1)", ".bigint()", ".decimal(5,2)", ".ceiling()")
+			}
 		} else if g.chance(0.1) {
 			text = text + " " + g.pick("==", "<", ">=", "!=") + " " + g.pick("1", `"a"`, "$n", "$tbl[1]", "null", "$s", "$tbl[*]", "$.b[*]", "$[*]")
 		} else if g.chance(0.05) {
@@ -1484,7 +1503,7 @@ func (g *gen) walkCond(el any, depth int) string {
 		case 1:
 			return "@." + k + " " + op + " $tbl[@.i]"
 		case 2:
-			return "$tbl[@.i] " + op + " @." + k
+			return g.pick("$tbl[@.i] "+op+" @."+k, "$tbl[@.i] "+op+" "+lit(v), "$.b[@.i] "+op+" $n", "$tbl[@.i] == $tbl[0]", "$o.a "+op+" $tbl[@.i]", "exists($tbl[@.i] ? (@ "+op+" 1))")
 		case 3:
 			return "@." + k + g.walkStep(v, 0) + " " + op + " " + lit(v)
 		case 4:
